@@ -140,6 +140,7 @@ PROPS["C10"] = {
         J(c10 + "Roundup"),
     ],
     "thorough": [
+        J(c10 + "RingSeq", maxcap=4, ops=4, maxrecap=6, covers=["recap ok", "expanded"]),
         J(c10 + "RingSeq", maxcap=5, ops=4, maxrecap=8, covers=["recap ok", "expanded"]),
         J(c10 + "RingInit"),
         J(c10 + "SyncSeq", maxreq=9, ops=5),
